@@ -60,7 +60,7 @@ func rulesReadNCBI(c *Ctx, r *Report, rd, ex *ssa.Function) {
 		k, isConst := ops[0].(*ssa.Const)
 		r.check(isConst && k.IsNil(), "ERR=>NIL", where, "error return", c.pos(rt.Pos()), "this return, whose error may be non-nil, returns a nil matrix", "this return may carry an error together with a (partially filled) matrix")
 	})
-	r.floor("ERR=>NIL", n, 5, "error returns of ReadNCBI")
+	r.floor("ERR=>NIL", n, 3, "error returns of ReadNCBI")
 	// the success return is dominated by the Err() test
 	s := newSymb(rd)
 	okFinal := false
@@ -80,7 +80,7 @@ func rulesReadNCBI(c *Ctx, r *Report, rd, ex *ssa.Function) {
 	r.check(okFinal, "ERR=>NIL", where, "success only after Err() == nil", c.pos(rd.Pos()), "the matrix is returned only on the edge where the scanner's Err() is nil", "the success return is not guarded by the scanner's Err(): a read failure yields a partial matrix with a nil error")
 	rulesScanErrFor(c, r, rd)
 	// B0 + GRD for both functions
-	rulesNoDroppedErrors(c, r, []*ssa.Function{rd, ex}, 5)
+	rulesNoDroppedErrors(c, r, []*ssa.Function{rd, ex}, 3)
 	rulesGrdFuncs(c, r, []*ssa.Function{rd, ex}, 10, "bounds goals in ReadNCBI and extractSingleChar (row[0], valStrs[0], valStrs[1:], chars[i], s[0])")
 	// STAR
 	se := newSymb(ex)
